@@ -54,6 +54,7 @@ type c03Params struct {
 	flat        int  // flat run: that many extra Sends at the default schedule, no choices
 	ackWhatever bool
 	group       bool // send through GroupTunnel.Send (the frame is built by the group layer)
+	everyPair   bool // the first transmission is answered with status OK for every (channel, number) in turn
 	allStatus   bool // the first request is acknowledged with an error status, every one of the 255 in turn
 }
 
@@ -89,6 +90,14 @@ func c03Run(p c03Params) func() {
 				firstTx[key] = s.T
 			}
 			ch, seq := req.Channel, req.SeqNumber
+			if p.everyPair && !errStatusSent {
+				// "every status / channel / sequence-number combination": all 65536 (channel, number)
+				// pairs with status OK; only (connection's channel, request's number) may end the Send
+				errStatusSent = true
+				pair := mc.Choose(65536, mc.Free)
+				c03Deliver(sock, uint8(pair>>8), uint8(pair), 0)
+				return
+			}
 			if p.allStatus && !errStatusSent {
 				// "acknowledgements with every status": codes the standard defines, and all the others
 				errStatusSent = true
@@ -603,6 +612,8 @@ func init() {
 	register("both", &h.Scenario{Name: "C03-S2-group-tunnel-2senders-loss", Prop: "C03", P: 2, F: 2, D: 2, Run: c03Run(sg), Check: c03Oracle(sg)})
 	as := c03Params{R: 100, T: 350, senders: 1, perSender: 2, allStatus: true}
 	register("both", &h.Scenario{Name: "C03-every-error-status-in-the-acknowledgement", Prop: "C03", P: 0, F: 0, D: -1, Run: c03Run(as), Check: c03Oracle(as)})
+	ep := c03Params{R: 100, T: 350, senders: 1, perSender: 2, everyPair: true}
+	register("both", &h.Scenario{Name: "C03-every-channel-and-number-in-the-acknowledgement", Prop: "C03", P: 0, F: 0, D: -1, Run: c03Run(ep), Check: c03Oracle(ep)})
 	s5 := c03Params{R: 100, T: 350, senders: 3, perSender: 2, tcp: true}
 	register("both", &h.Scenario{Name: "C03-S5-tcp-3senders", Prop: "C03", P: 2, F: 0, D: 2, Run: c03Run(s5), Check: c03Oracle(s5)})
 }
